@@ -134,6 +134,8 @@ type analysis struct {
 	HasLocks bool
 	// Gos: every go statement in scope (gofacts.go)
 	Gos []goFact
+	// Pages: iterators that turn pages (gofacts.go)
+	Pages []pageTurn
 }
 
 func recvName(fd *ast.FuncDecl) string {
@@ -187,6 +189,7 @@ func analyseScope(repo string, scope map[string]func(file string) bool, allowTex
 			an.HasLocks = true
 		}
 		an.Gos = append(an.Gos, goFactsOf(l, scope[rel], fset)...)
+		an.Pages = append(an.Pages, pageTurnsOf(l, scope[rel])...)
 		pkgName := l.Pkg.Name()
 		for i, file := range l.Files {
 			if filter != nil && !filter(l.Names[i]) {
@@ -246,6 +249,7 @@ func Facts(repo string) (string, error) {
 		b.WriteString("def trustedSites : Nat := 0\n")
 		b.WriteString(leanLockFacts(nil, err))
 		b.WriteString(leanGoFacts(nil, false))
+		b.WriteString(leanPageTurns(nil, false))
 		b.WriteString("end XmppModel.Generated.C09\n")
 		return b.String(), nil
 	}
@@ -277,6 +281,7 @@ func Facts(repo string) (string, error) {
 		b.WriteString(leanLockFacts(nil, fmt.Errorf("session.go not in scope")))
 	}
 	b.WriteString(leanGoFacts(an.Gos, true))
+	b.WriteString(leanPageTurns(an.Pages, true))
 	b.WriteString("\n/-! Sites:\n")
 	for _, s := range an.Sites {
 		if s.Kind == "loop" {
